@@ -33,6 +33,8 @@ InScope(e, exts) == e.kind = "file" /\ e.inside /\ e.ext \in exts
 ResolvedSourceDir(sd) == "cfgdir/src"          \* for every spelling of source_dir and every current directory
 LockLocation == "cfgdir/Breadlog.lock"         \* never the current directory
 
+(* spelling "linkcfg": the path given with --config is a symbolic link to a file in another directory; the configuration
+   directory is still the directory of the path that was given *)
 ValidInvocation(inv) == inv[2] = "bare" => inv[1] = "cfgdir"
 
 VARIABLES layout, exts, sd, inv
